@@ -14,7 +14,7 @@ the deterministic sequence W of top-level writes; every other run is judged agai
   predicted by the Coq model (C19/Model.v: write_all + drive + take_err, extracted) from W and
   the script; the interpreter's chunk list (Lang/Interp.v) concatenates to the same bytes.
 """
-import os, sys, collections
+import os, re, sys, collections
 sys.path.insert(0, os.path.dirname(os.path.dirname(os.path.abspath(__file__))))
 from vlib import *
 import proggen, langenc
@@ -75,6 +75,11 @@ FAMILY_CTX = {"n": 7, "m": -12, "s": "ab", "t": True, "l": [1, "x", [2]], "k": [
               "d": {"k": "<v>", "z": 1}, "u": "naïve 中文 \U0001f600"}
 
 
+NEW_CONSTRUCTS = [("map_literal", re.compile(r'\{(?:"[a-z]+"|\d+): |\{\}')), ("map_lookup", re.compile(r'\b[de](?:\.[a-z]+\b|\[")')),
+                  ("loop_over_map", re.compile(r'\{% for (?:k\d+(?:, x\d+)?|zk, zv) in ')), ("items_filter", re.compile(r'\|items\b')),
+                  ("unpacking_set", re.compile(r'\{% set \w+, \w+ = ')), ("unpacking_with", re.compile(r'\{% with \(\w+, \w+\) = '))]
+
+
 def merge_raws(body):
     """adjacent raw statements are one piece of template text in the printed source (one EmitRaw)"""
     out = []
@@ -95,7 +100,11 @@ def _map_bodies(st):
 
 ERR_STMTS = [("emit", ("bin", "//", ("int", 1), ("int", 0))), ("emit", ("call", "nosuchfunction", [], [])),
              ("set", "zerr", ("neg", ("str", "a"))), ("emit", ("filter", "abs", ("str", "x"), [])),
-             ("for", "zi", ("int", 3), None, [("raw", "x")], None, False)]
+             ("for", "zi", ("int", 3), None, [("raw", "x")], None, False),
+             # unpacking that fails after the right-hand side was evaluated: one item for two targets, a non-iterable
+             ("set", ["zua", "zub"], ("list", [("int", 1)])),
+             ("with", [(["zua", "zub"], ("int", 5))], [("raw", "x")]),
+             ("for", ["zk", "zv"], ("map", [(("str", "p"), ("int", 1))]), None, [("raw", "x")], None, False)]
 
 
 def inject_error(rng, body, depth=0):
@@ -355,6 +364,11 @@ def main():
             if not rel:
                 hist["free_" + ("ok" if "ok" in res else "err_" + ERR_NAMES.get(res.get("err"), "?"))] += 1
                 hist["writes_%s" % ("0" if not W else "1-9" if len(W) < 10 else "10-49" if len(W) < 50 else "50+")] += 1
+                if p.label.startswith("generated"):
+                    src = p.templates[p.main]
+                    for lab, rx in NEW_CONSTRUCTS:
+                        if rx.search(src):
+                            hist["generated_uses_" + lab] += 1
         # phase 2: scripted sinks
         reqs, plan = [], []
         for pi, (p, info) in enumerate(zip(progs, infos)):
